@@ -187,7 +187,9 @@ def p2d_observed(hdr, evs):
         elif e["e"] == "PE.exec":
             taskof[e["tid"]] = e["b"]
         elif e["e"] == "T2.exec":
-            k = taskof.get(e["tid"], 0)
+            # an executor with one thread runs the tasks in the caller without a PE.exec event: such pairs cannot be
+            # attributed to a task (key -1: they take part in the pair and conflict checks as one task, not in the structure check)
+            k = taskof.get(e["tid"], -1)
             cur.setdefault(k, []).append((e["a"], e["b"]))
     return execs
 
@@ -289,7 +291,9 @@ def main():
                     # one pair must be index sets of Par2D's tasks of that pass
                     for k, ps in enumerate(passes[:len(t["touch"])]):
                         exp = [set(x) for x in t["touch"][k]]
-                        for prs in ps.values():
+                        for kk, prs in ps.items():
+                            if kk == -1:
+                                continue
                             tch = set(i for q in prs for i in q)
                             if tch and not any(tch <= e1 for e1 in exp):
                                 # the partition differs from the transcription although every pair ran
